@@ -11,6 +11,7 @@ pub mod c11;
 pub mod c12;
 pub mod c13;
 pub mod c14;
+pub mod c15;
 pub mod c16;
 pub mod c17;
 pub mod c19;
@@ -37,6 +38,7 @@ pub fn get(id: &str, tier: Tier) -> Option<Property> {
         "C12" => c12::property(tier),
         "C13" => c13::property(tier),
         "C14" => c14::property(tier),
+        "C15" => c15::property(tier),
         "C16" => c16::property(tier),
         "C17" => c17::property(tier),
         "C19" => c19::property(tier),
